@@ -108,6 +108,10 @@ pub fn roundtrip(ctx: &Ctx, rt: &tokio::runtime::Runtime, work: &Path, name: &st
 			if expressible_format && d.format.as_deref() != Some(fname) && !expected.is_empty() {
 				ctx.violation(&format!("{cn}: declared tile format in the file differs"), &format!("{}: file declares {:?}, source {fname}", c.label, d.format), c.replay.clone());
 			}
+			for issue in &d.header_issues {
+				let class = if issue.contains("zoom levels") { "declared zoom range does not include the stored levels" } else if issue.contains("bounds") { "declared bounds do not fit the stored tiles" } else { "header counters contradict the directories" };
+				ctx.violation(&format!("{cn}: header of the written file contradicts its tiles: {class}{gap}"), &format!("{}: {issue}", c.label), c.replay.clone());
+			}
 			if d.compression != Some(ct::comp_id(c.comp)) && !expected.is_empty() {
 				ctx.violation(&format!("{cn}: declared compression in the file differs"), &format!("{}: file declares {:?}, source {:?}", c.label, d.compression, c.comp), c.replay.clone());
 			}
@@ -258,8 +262,8 @@ fn default_pair(c: Cont, alt: bool) -> (TileFormat, TileCompression) {
 pub fn run(ctx: Arc<Ctx>) {
 	ctx.rule(
 		"tile sets: BFS from the empty set by 'add (coordinate, payload)' over 14 coordinates x 5 payloads (canonical form = sorted map) to depth 2 (quick) / 3 (thorough; file-based targets depth 2), \
-		 x 5 target formats x two (format, compression) pairs; every accepted (format, compression) pair x representative sets; named families (dense 130x130 at z=8 -> PMTiles leaf directories, full z0..4 pyramid, 70/100 KiB payloads, level-31 corners, PMTiles root/leaf switch sweep + counts k*4096-1..+2 for k=1..5, diamond-shaped sparse levels). \
-		 oracle: repository reader lookups + streams = independent decoder = source mapping. non-trivial = distinct tile sets spanning >= 2 blocks of a level, with duplicate payloads, payloads on both sides of 1000 bytes, or a zoom gap",
+		 x 5 target formats x two (format, compression) pairs; every accepted (format, compression) pair x representative sets; named families (dense 130x130 at z=8 -> PMTiles leaf directories, full z0..4 pyramid, 70/100 KiB payloads, level-31 corners, PMTiles root/leaf switch sweep + counts k*4096 and k*4096+1 (thorough: -1..+2) for k=1..5, diamond-shaped sparse levels). \
+		 oracle: repository reader lookups + streams = independent decoder = source mapping; header fields (zoom range includes the stored levels, bounds valid and containing the top level's tile centres, PMTiles counters 0 or exact, MBTiles minzoom/maxzoom/bounds rows) consistent with the stored tiles. non-trivial = distinct tile sets spanning >= 2 blocks of a level, with duplicate payloads, payloads on both sides of 1000 bytes, or a zoom gap",
 	);
 	ctx.assume("compression libraries (flate2, brotli) and SQLite are the trusted base shared with the repository; the independent decoders are cross-validated against the repository's writers on this very space");
 	let work = ct::WorkDir::new("c01");
@@ -298,6 +302,7 @@ pub fn run(ctx: Arc<Ctx>) {
 			}
 		}
 	});
+	ctx.extra_add("wall_ms_bfs_part", (ctx.elapsed() * 1000.0) as u64);
 	ctx.sample(json!({"bfs_state": states[states.len() / 2], "coordinates": tilesets::coord_alphabet(), "payload_lengths": tilesets::payload_alphabet().iter().map(|p| p.len()).collect::<Vec<_>>()}));
 	// 2. every accepted (format, compression) pair x representative sets
 	let reps: Vec<tilesets::SetSpec> = vec![vec![(0, 0)], vec![(6, 1), (7, 1), (9, 3)], vec![(1, 0), (5, 4), (12, 2), (13, 2)]];
@@ -318,6 +323,7 @@ pub fn run(ctx: Arc<Ctx>) {
 		roundtrip(ctxr, &rt, &wpath, &format!("p{i}"), &case);
 	});
 	ctx.outcome_n("(format, compression) pair cases", pair_cases.len() as u64);
+	ctx.extra_add("wall_ms_after_pairs", (ctx.elapsed() * 1000.0) as u64);
 	// 3. named families
 	let mut fams: Vec<(String, TileMap, Vec<Cont>)> = vec![];
 	let all = ct::ALL_CONT.to_vec();
@@ -377,6 +383,7 @@ pub fn run(ctx: Arc<Ctx>) {
 		ctxr.nontrivial(fnv_str(&format!("family{i}")));
 	});
 	ctx.outcome_n("named family x format cases", jobs.len() as u64);
+	ctx.extra_add("wall_ms_after_families", (ctx.elapsed() * 1000.0) as u64);
 	// 4. PMTiles root/leaf switch: tile counts around the point where the root directory no longer fits into 16 KiB
 	pm_switch_sweep(&ctx, &wpath);
 	ctx.exhaustive(true);
@@ -430,11 +437,11 @@ fn pm_switch_sweep(ctx: &Arc<Ctx>, work: &Path) {
 			}
 		}
 		let switch = hi;
-		let window = ctxr.tier.pick(48usize, 400usize);
+		let window = ctxr.tier.pick(24usize, 400usize);
 		let mut ns: Vec<usize> = (switch.saturating_sub(window)..=switch + 4).collect();
 		// counts around whole multiples of the writer's leaf size (4096 entries), where the last leaf is short / full / one entry
 		for k in 1..=5usize {
-			for d in [-1i64, 0, 1, 2] {
+			for d in if ctxr.tier == Tier::Quick { vec![0i64, 1] } else { vec![-1i64, 0, 1, 2] } {
 				let n = (k as i64 * 4096 + d) as usize;
 				if n >= switch {
 					ns.push(n);
